@@ -6,7 +6,7 @@ CONSTANTS
   NumSeqs <- NumsQuick
   NewObjs <- MCNewObjs
   MaxDepth = 3
-  Starts <- StartsQuick
+  Starts <- StartsAll3
   Allowed = {"content.sharedStream", "resources.nameCollision"}
   Emit = TRUE
   EmitMod = 4000
